@@ -18,10 +18,12 @@ Init == t \in 1..NT /\ l = 1 /\ bad = "" /\ regs = {} /\ q = [kind |-> "PYRO"]
 Check(x) ==
     LET allowed == R!Allowed(RegSet(x), Query(x)) IN
     IF x.out = "hang" THEN "Resolve.Hang"
-    ELSE IF allowed = {} THEN (IF x.out # "NamingError" THEN "Resolve.NothingRegisteredButNoNamingError" ELSE "")
+    ELSE IF allowed = {} THEN (IF x.out # "NamingError" THEN "Resolve.NothingRegisteredButNoNamingError"
+                               ELSE IF x.proxy_out # "NamingError" THEN "Resolve.ProxyNothingRegisteredButNoNamingError" ELSE "")
     ELSE IF x.out = "NamingError" THEN "Resolve.RegisteredButNotFound"
     ELSE IF x.out # "target" THEN "Resolve.ResultIsNotADirectUri"
     ELSE IF x.target \notin allowed THEN "Resolve.WrongTarget"
+    ELSE IF x.proxy_out = "NamingError" THEN "Resolve.ProxyRegisteredButNotFound"
     ELSE IF x.proxy_out # "target" \/ x.proxy_target \notin allowed THEN "Resolve.ProxyReachesSomethingElse"
     ELSE ""
 Step == l = 1 /\ l' = 2 /\ t' = t /\ bad' = Check(X) /\ UNCHANGED <<regs, q>>
